@@ -63,6 +63,7 @@ class Config:
     # flip when all cores are busy
     branch_timeout_ms = 5000
     oblig_timeout_ms = 60000
+    first_try_ms = 6000  # budget of the cheap first attempts in State._decide
     cover_timeout_ms = None  # budget of one reachability (vacuity) check; None: oblig_timeout_ms.  An `unknown` answer leaves the
     # point "uncovered" unless another path covers it, so a contract whose paths carry quantifiers may shorten it (sound)
     max_paths = 20000
@@ -359,6 +360,13 @@ class State:
             formula = z3.BoolVal(formula)
         elif isinstance(formula, V.Sym):
             formula = z3.BoolVal(bool(formula))
+        sh = self.cfg.shard
+        if sh is not None and sh[0] != 0 and self.pos < sh[2]:
+            # before the sharding depth every shard walks the same path prefix: shard 0 owns (checks) the
+            # obligations met there, the others just take them as assumptions, as after any checked obligation
+            if assume_after:
+                self.assume(formula)
+            return None
         ob = self.ex.obligations.get(key)
         if ob is None:
             ob = Obligation(name, kind)
@@ -370,20 +378,9 @@ class State:
             elif getattr(self.cfg, "ground_first", False) and not _has_quantifier(formula) and self._check_ground(z3.Not(formula), min(3000, self.cfg.oblig_timeout_ms)) == z3.unsat:
                 ob.status, ob.backend = "discharged", "z3-ground"
             else:
-                # first against the quantifier-free part of the path condition alone (fewer assumptions: sound;
-                # quantified facts that the goal does not need otherwise send the solver astray), then in full
-                if self.n_quantified and self.qf_refutes(z3.Not(formula), min(2000, self.cfg.oblig_timeout_ms)):
-                    r, model = z3.unsat, None
-                else:
-                    r, model = self._check(z3.Not(formula), self.cfg.oblig_timeout_ms)
-                if r == z3.unknown:
-                    # the incremental (push/pop) solver gave up: ask a fresh, non-incremental one (it preprocesses
-                    # the whole query), then one that sees only the quantifier-free part of the path condition
-                    r, model = self._check_fresh(z3.Not(formula), self.cfg.oblig_timeout_ms)
-                    if r != z3.unknown:
-                        ob.backend = "z3-fresh"
-                    elif self._check_ground(z3.Not(formula), self.cfg.oblig_timeout_ms) == z3.unsat:
-                        r, ob.backend = z3.unsat, "z3-ground"
+                r, model, backend = self._decide(z3.Not(formula))
+                if backend:
+                    ob.backend = backend
                 if r == z3.unsat:
                     ob.status = "discharged"
                 elif r == z3.sat:
@@ -403,16 +400,6 @@ class State:
                         ob.detail = f"counterexample to: {_short(formula)}"
                 else:
                     ob.status = "undecided"
-                    # the incremental (push/pop) solver gave up: one more try with a fresh, non-incremental z3
-                    # (full preprocessing), which decides many quantified queries at once
-                    fs = z3.Solver()
-                    fs.set("timeout", self.cfg.oblig_timeout_ms)
-                    fs.add(*self.pc)
-                    fs.add(z3.Not(formula))
-                    if fs.check() == z3.unsat:
-                        ob.status, ob.backend = "discharged", "z3-fresh"
-                    self.ex.solver_time += time.time() - t0
-                    self.ex.queries += 1
                     if ob.status == "undecided" and self.cfg.use_cvc5:
                         smt = self.to_smt2(z3.Not(formula))
                         r2 = cvc5_check(smt)
@@ -428,6 +415,32 @@ class State:
         if assume_after:
             self.assume(formula)
         return ob
+
+    def _decide(self, goal):
+        """Is `goal` (the negated obligation) satisfiable together with the path condition?  An escalation ladder:
+        cheap attempts with a short budget first, the full budget last -- so an obligation that only a fresh or a
+        quantifier-free solver decides does not first burn the whole budget in the incremental one.
+        -> (z3 result, model | None, backend label | None)"""
+        budget = self.cfg.oblig_timeout_ms
+        first = min(budget, self.cfg.first_try_ms)
+        if self.n_quantified and self.qf_refutes(goal, min(2000, budget)):
+            return z3.unsat, None, "z3-ground"
+        r, model = self._check(goal, first)
+        if r != z3.unknown:
+            return r, model, None
+        r, model = self._check_fresh(goal, first)
+        if r != z3.unknown:
+            return r, model, "z3-fresh"
+        if self.n_quantified and self._check_ground(goal, first) == z3.unsat:
+            return z3.unsat, None, "z3-ground"
+        if first < budget:
+            r, model = self._check(goal, budget)
+            if r != z3.unknown:
+                return r, model, None
+            r, model = self._check_fresh(goal, budget)
+            if r != z3.unknown:
+                return r, model, "z3-fresh"
+        return z3.unknown, None, None
 
     def known_conds(self, known):
         from .seqs import View
